@@ -428,6 +428,7 @@ pub fn real_histories(bin : &str, base : &str, n : usize, seed : u64, prof : &st
     for k in 0..n
     {
         let mut rng = Rng::new(seed.wrapping_mul(1000003).wrapping_add(k as u64));
+        if prof == "realwide" { all.extend(wide_history(bin, base, k, seed, &mut rng)); continue; }
         let mut pr = profile(if with_env { "env" } else { "core" }); pr.max_rules = 4; pr.max_steps = 8;
         let (mut rules, leaves) = gen_rules(&mut rng, &pr);
         for r in rules.iter_mut() { if r.kind == "kill" { r.kind = "fail".to_string(); } r.pk = false; if !with_env { r.mask.clear(); } r.layout = 0; r.flat = true; }
@@ -495,4 +496,33 @@ pub fn real_histories(bin : &str, base : &str, n : usize, seed : u64, prof : &st
         for tag in ["", "t"] { let _ = std::fs::remove_dir_all(Path::new(base).join(format!("obs{}{}", k, tag))); let _ = std::fs::remove_dir_all(Path::new(base).join(format!("obs{}{}.xlog", k, tag))); }
     }
     all
+}
+
+/*  many independent rules with byte-identical outputs (copies of one source), the source flipped between two versions: in every build all
+    of them move equal files onto one cache entry and compete for the one entry that holds the version they want back, in real threads */
+fn wide_history(bin : &str, base : &str, k : usize, seed : u64, rng : &mut Rng) -> Vec<Value>
+{
+    let n = 16 + rng.below(12);
+    let mut rules : Vec<XRule> = (0..n).map(|i| { let t = format!("w{:02}", i); let mut r = XRule::new(&[t.as_str()], &["l0"], "copy", &format!("c{}", i)); r.flat = true; r }).collect();
+    if rng.chance(1, 2) { let i = rng.below(n); rules[i].x = true; }
+    let mut ord : Vec<String> = rules.iter().map(|r| r.tg[0].clone()).collect(); ord.push("l0".to_string()); ord.push("zz".to_string()); ord.sort();
+    let dir = Path::new(base).join(format!("wide{}", k));
+    let _ = std::fs::remove_dir_all(&dir); std::fs::create_dir_all(&dir).unwrap();
+    let mut scn = RScn{dir : dir.clone(), xlog : Path::new(base).join(format!("wide{}.xlog", k)), bin : bin.to_string(), rules : vec![], ord : ord,
+        dict : BTreeMap::new(), rids : BTreeMap::new(), shs : BTreeMap::new(), out : vec![], run_toggle : false, quiet : false, removed : BTreeSet::new()};
+    scn.learn(b"");
+    scn.out.push(json!({"a" : "reset", "sc" : format!("wide{}.{}", seed, k), "ord" : scn.ord, "clock" : "distinct", "real" : true}));
+    scn.set_env("e0"); scn.out.pop();
+    scn.set_rules(&rules);
+    scn.edit("l0", "S0");
+    scn.invoke(true, "", None, 0);
+    for round in 0..(5 + rng.below(4))
+    {
+        scn.edit("l0", if round % 2 == 0 { "S1" } else { "S0" });
+        if rng.chance(1, 4) { scn.invoke(false, "", None, 0); }
+        scn.invoke(true, "", None, 0);
+    }
+    rank_stamps(&mut scn.out);
+    let _ = std::fs::remove_dir_all(&dir); let _ = std::fs::remove_dir_all(Path::new(base).join(format!("wide{}.xlog", k)));
+    scn.out
 }
